@@ -601,6 +601,15 @@ fn corpus_project() -> Project {
     Project { files, has_import: true }
 }
 
+/// the smallest project where an astral character precedes a mapped token on its line (DESIGN §9-an)
+fn corpus_project_astral() -> Project {
+    let mut files = BTreeMap::new();
+    files.insert("graphql.config.yaml".into(), config_yaml("with-loader-ts-5.0", "./schema.d.ts", None));
+    files.insert("schema/main.graphql".into(), "type Query {\n  \"😀\" n: Int\n}\n".into());
+    files.insert("ops/q.graphql".into(), "query Q {\n  n\n}\n".into());
+    Project { files, has_import: false }
+}
+
 fn gen_project(rng: &mut Rng) -> Project {
     let mut files = BTreeMap::new();
     let mode = *rng.pick(&["with-loader-ts-5.0", "with-loader-ts-4.0", "standalone-ts-4.0"]);
@@ -968,6 +977,7 @@ impl<'a> Ctx<'a> {
         let mut opfiles: Vec<String> = p.files.keys().filter(|k| k.starts_with("ops/")).cloned().collect();
         opfiles.sort();
         store.extend(opfiles);
+        let mut named_by_map: BTreeMap<String, Vec<(String, i128, String)>> = BTreeMap::new();
         for (i, (rel, sources, names, src_texts, is_op, generated)) in metas.iter().enumerate() {
             // K: sources = model's sourceFiles
             let own = store.iter().position(|f| {
@@ -1056,6 +1066,11 @@ impl<'a> Ctx<'a> {
                             }
                         }
                     }
+                    {
+                        let abs = normalize(&root.join(rel).parent().unwrap().join(&sources[src as usize]));
+                        let srel = abs.strip_prefix(&root).map(|x| x.to_string_lossy().to_string()).unwrap_or_default();
+                        named_by_map.entry(rel.clone()).or_default().push((srel, ol, name.clone()));
+                    }
                     prev_named = Some((src, ol, oc as i128, name));
                 } else {
                     if let Some((psrc, pl, pc, pname)) = &prev_named {
@@ -1071,6 +1086,54 @@ impl<'a> Ctx<'a> {
             if nontrivial {
                 self.rep.nontrivial(&format!("{}|{rel}", case));
                 self.rep.count("e2e:maps-checked");
+            }
+        }
+        // ---- every definition has a named segment into its header (own and imported fragments included)
+        let suffixes = [".d.graphql.ts.map", ".graphql.d.ts.map", ".graphql.ts.map"];
+        let schema_out = p.files.get("graphql.config.yaml").and_then(|c| c.lines().find_map(|l| l.trim().strip_prefix("schemaOutput: ").map(|x| x.trim_start_matches("./").to_string()))).unwrap_or_default();
+        let has_seg = |map: &str, file: &str, line: usize, name: &str| -> bool {
+            named_by_map.get(map).map_or(false, |v| v.iter().any(|(f, l, n)| f == file && *l == line as i128 && n == name))
+        };
+        let find_map = |stem: &str| -> Option<String> { suffixes.iter().map(|s| format!("{stem}{s}")).find(|m| metas.iter().any(|x| x.0 == *m)) };
+        for (file, text) in p.files.iter().filter(|(k, _)| k.ends_with(".graphql")) {
+            let mut in_type = false;
+            for (ln, l) in text.lines().enumerate() {
+                let t = l.trim_start();
+                let word = |rest: &str| -> String { rest.chars().take_while(|c| c.is_alphanumeric() || *c == '_').collect() };
+                if file.starts_with("schema/") {
+                    let map = format!("{schema_out}.map");
+                    if let Some(rest) = t.strip_prefix("type ") {
+                        in_type = true;
+                        let n = word(rest);
+                        self.rep.count("e2e:definition:type");
+                        if !has_seg(&map, file, ln, &n) {
+                            self.rep.fail("O", "e2e:definition-without-segment:type", &format!("{map}: no named segment {n:?} into {file}:{ln} (header of type {n})"), case.clone());
+                        }
+                    } else if t.starts_with('}') {
+                        in_type = false;
+                    } else if in_type && !t.starts_with('#') && !t.starts_with('"') && t.contains(':') {
+                        let n = word(t);
+                        self.rep.count("e2e:definition:field");
+                        if !n.is_empty() && !has_seg(&map, file, ln, &n) {
+                            self.rep.fail("O", "e2e:definition-without-segment:field", &format!("{map}: no named segment {n:?} into {file}:{ln} (field definition)"), case.clone());
+                        }
+                    }
+                } else {
+                    let def = t.strip_prefix("query ").map(|r| ("operation", word(r))).or_else(|| t.strip_prefix("fragment ").map(|r| ("fragment", word(r))));
+                    let Some((kind, n)) = def else { continue };
+                    // the file's own map, and the map of every operation file that (transitively) imports it
+                    for other in p.files.keys().filter(|k| k.starts_with("ops/") && k.ends_with(".graphql")) {
+                        let own = other == file;
+                        if !(own || (kind == "fragment" && import_closure(p, other).contains(file))) {
+                            continue;
+                        }
+                        let Some(map) = find_map(other.trim_end_matches(".graphql")) else { continue };
+                        self.rep.count(&format!("e2e:definition:{kind}:{}", if own { "own-file" } else { "imported" }));
+                        if !has_seg(&map, file, ln, &n) {
+                            self.rep.fail("O", &format!("e2e:definition-without-segment:{kind}:{}", if own { "own-file" } else { "imported" }), &format!("{map}: no named segment {n:?} into {file}:{ln} (header of {kind} {n})"), case.clone());
+                        }
+                    }
+                }
             }
         }
         self.rep.count(&format!("e2e:project:{imp}"));
@@ -1250,6 +1313,7 @@ fn main() {
     // ---- end to end
     if !cli.is_empty() && Path::new(&cli).exists() {
         ctx.project(&corpus_project(), &cli, &scratch, 0);
+        ctx.project(&corpus_project_astral(), &cli, &scratch, 0);
         let nproj = args.budget(40, 400);
         for i in 0..nproj {
             let p = gen_project(&mut rng);
